@@ -74,7 +74,9 @@ fn c09_regimes(compressed: bool) -> Vec<(&'static str, usize, usize)> {
             ("first_write", 0, 300),
         ]
     } else {
-        vec![("in_place", 100, 20), ("grow_relocate", 450, 300), ("grow_large", 100, 40_000), ("first_write", 0, 300)]
+        // grow_last_file: the vector's region is the last one in the file and the append is larger
+        // than the file, so the write extends it in place and the file itself has to grow
+        vec![("in_place", 100, 20), ("grow_relocate", 450, 300), ("grow_large", 100, 40_000), ("grow_last_file", 100, 300_000), ("first_write", 0, 300)]
     }
 }
 
@@ -97,8 +99,10 @@ where
     }
     v.write().ok()?;
     // a second region right behind the vector's so that growth has to relocate
-    let other = db.create_region_if_needed("other").ok()?;
-    other.write(&[0xAB; 100]).ok()?;
+    if regime != "grow_last_file" {
+        let other = db.create_region_if_needed("other").ok()?;
+        other.write(&[0xAB; 100]).ok()?;
+    }
     for i in stored..stored + pushed {
         v.push(val(i));
     }
@@ -562,6 +566,48 @@ fn c10_build(kind: &str) -> Option<Scn> {
             Some(Scn { tmp, jobs, check })
         }
         // a reader held across relocation + flush + reuse of the old extent
+        // one thread grows the file by more than a factor of two in a single write while another
+        // needs the file grown by one page (both go through set_min_len; the file is exactly full
+        // beforehand): whatever the order, nobody's bytes may end up beyond the end of the file
+        "grow_big_vs_create" => {
+            let db = Database::open_with_min_len(tmp.path(), 1 << 20).ok()?;
+            let a = db.create_region_if_needed("a").ok()?;
+            let first = payload(1, 600_000);
+            a.write(&first).ok()?; // reserve 1 MiB at offset 0: the allocated area fills the file
+            db.flush().ok()?;
+            if db.layout().len() != db.file_len() {
+                if std::env::var("VERIF_DEBUG_SCHED").is_ok() {
+                    eprintln!("grow_big_vs_create: layout.len {} file_len {}", db.layout().len(), db.file_len());
+                }
+                return None;
+            }
+            let more = payload(2, 3 << 20);
+            let mut expect = first.clone();
+            expect.extend_from_slice(&more);
+            let grower: Job = Box::new(move || {
+                a.write(&more).unwrap();
+            });
+            let db1 = db.clone();
+            let creator: Job = Box::new(move || {
+                let c = db1.create_region_if_needed("c").unwrap();
+                c.write(&payload(3, 100)).unwrap();
+            });
+            let check = Box::new(move |_: &[sched::PunchRec]| {
+                check_layout(&db).map_err(|e| format!("extent invariant broken at quiescence: {e}"))?;
+                let a = db.get_region("a").ok_or("region a disappeared")?;
+                let got = a.create_reader().read_all().to_vec();
+                if got != expect {
+                    let at = got.iter().zip(&expect).position(|(x, y)| x != y).unwrap_or(got.len().min(expect.len()));
+                    return Err(format!("region a differs from what its own thread wrote (len {} vs {}, first difference at {at}: {:?} vs {:?}) after a concurrent file growth", got.len(), expect.len(), got.get(at), expect.get(at)));
+                }
+                let c = db.get_region("c").ok_or("region c disappeared")?;
+                if c.create_reader().read_all() != &payload(3, 100)[..] {
+                    return Err("region c differs from what its own thread wrote".into());
+                }
+                Ok(())
+            });
+            Some(Scn { tmp, jobs: vec![("grower".into(), grower), ("creator".into(), creator)], check })
+        }
         // a thread creates a region in a promoted hole and writes it while another compacts: the
         // creator's bytes must survive (the hole list compaction works from must not be stale)
         "create_vs_compact" | "create_small_vs_compact" => {
@@ -1286,6 +1332,12 @@ pub fn check_c10(ctx: &Ctx) -> i32 {
         let ex = explore(&key, Mode::Mixed { random_first: ctx.pick(10, 40), seed: ctx.seed ^ i as u64, max_preempt: 1, max_runs: ctx.pick(40, 400) }, ctx.elapsed() + per * 1.5, ctx);
         agg.absorb(ctx, &report, "C10", &key, ex, true);
         agg.stats.bump("isorand_scripts");
+    }
+    // few, long runs (megabytes are written): its own budget, one pre-emption enumerated completely
+    {
+        let key = "c10|grow_big_vs_create";
+        let ex = explore(key, Mode::Dfs { max_preempt: ctx.pick(1, 2), max_runs: ctx.pick(200, 3000) }, ctx.elapsed() + ctx.secs(12.0, 90.0), ctx);
+        agg.absorb(ctx, &report, "C10", key, ex, true);
     }
     let n = plan.len() as f64;
     for (key, mode) in plan {
